@@ -15,10 +15,12 @@ import c01_common as cm  # noqa
 
 PID = 'C01'
 COQ_HEAD = '\n'.join([
-    'From Coq Require Import String List ZArith QArith.', 'Import ListNotations.',
-    'From FV.C01 Require Import Str Dec Model.', 'Open Scope string_scope.',
+    'From Coq Require Import String List ZArith QArith Qabs.', 'Import ListNotations.',
+    'From FV.C01 Require Import Str Dec Model Orient.', 'Open Scope string_scope.',
     'Set Printing Width 100000.', 'Set Printing Depth 100000.',
-    'Definition dq s := match parse_dec s with Some d => d | None => dec_zero end.', ''])
+    'Definition dq s := match parse_dec s with Some d => d | None => dec_zero end.',
+    'Definition sgn (q : Q) : Z := Z.sgn (Qnum q).',
+    'Definition close (a b : Q) : bool := Qle_bool (Qabs (a - b)) ((1#1000000) * (1 + Qabs b)).', ''])
 
 
 # ------------------------------------------------------------------ variants
@@ -188,6 +190,62 @@ def roundtrip_diff(mesh, r):
     return bad
 
 
+# ------------------------------------------------------------------ orientation
+REF = {
+    'tet': [(0, 0, 0), (1, 0, 0), (0, 1, 0), (0, 0, 1)],
+    # femio (VTK wedge) order: 0-1-2 clockwise seen from 3-4-5
+    'prism': [(0, 0, 0), (0, 1, 0), (1, 0, 0), (0, 0, 1), (0, 1, 1), (1, 0, 1)],
+    'hex': [(0, 0, 0), (1, 0, 0), (1, 1, 0), (0, 1, 0), (0, 0, 1), (1, 0, 1), (1, 1, 1), (0, 1, 1)],
+}
+
+
+def det3(a, b, c):
+    return (a[0] * (b[1] * c[2] - b[2] * c[1]) - a[1] * (b[0] * c[2] - b[2] * c[0])
+            + a[2] * (b[0] * c[1] - b[1] * c[0]))
+
+
+def vsub(a, b):
+    return tuple(x - y for x, y in zip(a, b))
+
+
+def vsum(ps):
+    return tuple(sum(p[k] for p in ps) for k in range(3))
+
+
+def fistr_measure(ty, q):
+    """S-definition of FrontISTR's orientation (exact integers), q = coordinates in the
+    node order found in the .msh file"""
+    if ty == 'tet':
+        return det3(vsub(q[1], q[0]), vsub(q[2], q[0]), vsub(q[3], q[0]))
+    if ty == 'prism':
+        return det3(vsub(q[1], q[0]), vsub(q[2], q[0]), vsub(vsum(q[3:6]), vsum(q[0:3])))
+    return det3(vsub(q[2], q[0]), vsub(q[3], q[1]), vsub(vsum(q[4:8]), vsum(q[0:4])))
+
+
+def gen_orient_cases(rng, n):
+    cases = []
+    for k in range(n):
+        ty = ['tet', 'prism', 'hex'][k % 3]
+        while True:
+            M = [[rng.randint(-3, 3) for _ in range(3)] for _ in range(3)]
+            d = det3(*M)
+            if d != 0:
+                break
+        t = [rng.randint(-5, 5) for _ in range(3)]
+        pts = [tuple(sum(M[r][c] * p[c] for c in range(3)) + t[r] for r in range(3)) for p in REF[ty]]
+        affine = k < 2 * n // 3
+        if not affine:   # general position: kernel correspondence only
+            pts = [tuple(x + rng.randint(-1, 1) for x in p) for p in pts]
+        ids = rng.sample(range(1, 500), len(pts))
+        cases.append({'type': ty, 'coords': [list(p) for p in pts], 'node_ids': ids, 'conn': ids,
+                      'affine': affine, 'det': d})
+    return cases
+
+
+def coq_qpts(pts):
+    return lib.coq_list(['(' + ', '.join(f'({x}#1)' for x in p) + ')' for p in pts])
+
+
 # ------------------------------------------------------------------ Coq evaluation
 def coq_failing(ctx, name, items, timeout=900, chunk_bytes=70000):
     """items: list of (id, coq boolean expression).  Returns the ids whose
@@ -275,7 +333,7 @@ def main(ctx):
         lib.write_if_changed(lib.COQ / 'C01' / 'gen' / 'Tables.v', c01_tables.emit(tables))
         ctx.notes['translated_tables'] = {k: tables[k] for k in (
             'prism_perm_write', 'prism_write_codes', 'prism_perm_read', 'prism_read_type',
-            'frac_digits', 'ignore_pats', 'ignore_src')}
+            'frac_digits', 'ignore_pats', 'ignore_src', 'rebind_by_id')}
     except (c01_tables.TranslateError, SyntaxError, OSError) as e:
         tie_ok = False
         tables = None
@@ -309,7 +367,7 @@ def main(ctx):
             ctx.notes['model_build_log_tail'] = log[-1500:]
 
     # ---------------------------------------------------------------- 3. cases
-    n_mesh = {'quick': 60, 'thorough': 600}.get(tier, 60)
+    n_mesh = {'quick': 40, 'thorough': 600}.get(tier, 40)
     meshes = []
     corpus = sorted((lib.VERIF / 'corpus' / 'C01').glob('*.json')) \
         if (lib.VERIF / 'corpus' / 'C01').exists() else []
@@ -363,6 +421,51 @@ def main(ctx):
     def shown(r):
         return cm.show_read(r['read']) if 'read' in r else ['ERROR']
 
+    # orientation: single affine (and a few general) tets / prisms / hexes with integer coordinates
+    ocases = gen_orient_cases(ctx.rng, {'quick': 36, 'thorough': 300}.get(tier, 36))
+    ojobs = [{'op': 'volumes', 'id': 'vol', 'mode': 'linear',
+              'cases': [{'type': c['type'], 'coords': [[float(x).hex() for x in p] for p in c['coords']],
+                         'node_ids': c['node_ids'], 'conn': c['conn']} for c in ocases]}]
+    for k, c in enumerate(ocases):
+        ojobs.append({'op': 'write_read', 'id': k, 'dir': str(work / f'o{k}'), 'msh_only': True,
+                      'mesh': {'node_ids': c['node_ids'],
+                               'coords': [[float(x).hex() for x in p] for p in c['coords']],
+                               'elems': [[c['type'], [1], [c['conn']]]]}})
+    t0 = time.time()
+    res3 = cm.run_child(ctx, ojobs, 'phase3')
+    ctx.log(f'phase 3 (orientation: {len(ocases)} single elements written, femio volumes): '
+            f'{time.time() - t0:.1f}s')
+    orient_items = []
+    orient_bad = []
+    for k, c in enumerate(ocases):
+        ctx.count('orient:' + c['type'] + (':affine' if c['affine'] else ':general'))
+        vol = res3['vol']['volumes'][k]
+        r = res3[k]
+        ctx.case(['orient', c['type'], c['coords'], c['node_ids']], nontrivial=True)
+        if vol.startswith('error') or 'msh' not in r:
+            orient_bad.append((k, 'femio raised: ' + str(vol) + str(r.get('write_error'))))
+            continue
+        v = float.fromhex(vol)
+        num, den = v.as_integer_ratio()
+        orient_items.append((k, f'match q6_of {lib.coq_str(c["type"])} {coq_qpts(c["coords"])} with '
+                                f'Some m => close (6 * ({num}#{den})) m | None => false end'))
+        if c['affine']:
+            orient_items.append((1000 + k,
+                                 f'match q6_of {lib.coq_str(c["type"])} {coq_qpts(c["coords"])}, '
+                                 f'qfistr_of {lib.coq_str(c["type"])} {coq_qpts(c["coords"])} with '
+                                 f'Some a, Some b => Z.eqb (sgn a) (sgn b) && negb (Z.eqb (sgn a) 0) '
+                                 f'| _, _ => false end'))
+            # the property on the implementation: orientation (S-definition, exact integers) of
+            # the node order found in the written file vs the sign of femio's volume
+            lines = r['msh'].split('\n')
+            i0 = [i for i, l in enumerate(lines) if l.startswith('!ELEMENT')][0]
+            conn = [int(x) for x in lines[i0 + 1].split(',')][1:]
+            xyz = dict(zip(c['node_ids'], [tuple(p) for p in c['coords']]))
+            meas = fistr_measure(c['type'], [xyz[n] for n in conn])
+            if (meas > 0) != (v > 0):
+                orient_bad.append((k, f'femio volume {v}, FrontISTR orientation measure of the written '
+                                      f'order {meas}'))
+
     # ---------------------------------------------------------------- 4. correspondence
     text_items, read_items = [], []
     for i, m in enumerate(meshes):
@@ -382,8 +485,11 @@ def main(ctx):
         bad_read = coq_failing(ctx, 'CorrRead', read_items)
         ctx.log(f'correspondence in Coq ({len(text_items)} texts, {len(read_items)} reads): '
                 f'{time.time() - t0:.1f}s; disagreements: text {bad_text}, read {bad_read}')
-    n_corr = len(text_items) + len(read_items)
-    n_dis = (len(bad_text) if bad_text else 0) + (len(bad_read) if bad_read else 0)
+    bad_orient = coq_failing(ctx, 'CorrOrient', orient_items) if model_ok else None
+    ctx.log(f'orientation / kernel correspondence in Coq ({len(orient_items)} checks): disagreements {bad_orient}')
+    n_corr = len(text_items) + len(read_items) + len(orient_items)
+    n_dis = (len(bad_text) if bad_text else 0) + (len(bad_read) if bad_read else 0) \
+        + (len(bad_orient) if bad_orient else 0)
     ctx.corr = {'cases': n_corr, 'text_cases': len(text_items), 'read_cases': len(read_items),
                 'disagreements': n_dis if bad_text is not None and bad_read is not None else 'not evaluated'}
 
@@ -437,6 +543,23 @@ def main(ctx):
                           signature={'oracle': 'format', 'variant': k0,
                                      'block': kind.split(':')[1] if ':' in kind else ''},
                           what=f'formatting variant "{kind}" changes what is read')
+    for k, why in orient_bad[:3]:
+        impl_bad += 1
+        c = ocases[k]
+        ctx.violation('impl-violation', {'orient_case': c, 'msh': res3[k].get('msh')},
+                      'a positively oriented element is written in FrontISTR\'s positive node order',
+                      why, 'C01_orientation_* / oracle on implementation', found_input=True,
+                      signature={'oracle': 'orientation', 'type': c['type']},
+                      what=f'written {c["type"]} has the wrong orientation for FrontISTR')
+    if bad_orient:
+        for idx in bad_orient[:3]:
+            c = ocases[idx % 1000]
+            ctx.violation('correspondence', {'orient_case': c},
+                          'femio volume (mode=linear) x 6 = Orient.q6_of; sign = FrontISTR measure of to_fistr',
+                          {'femio_volume': res3['vol']['volumes'][idx % 1000], 'check': 'kernel' if idx < 1000 else 'sign'},
+                          'correspondence C01 orientation kernels', found_input=False,
+                          signature={'kind': 'correspondence', 'side': 'orientation', 'type': c['type']},
+                          what='volume kernel / orientation model disagrees with femio')
     ctx.notes['search_evaluations'] = n_eval
     ctx.notes['impl_property_failures'] = impl_bad
 
@@ -470,7 +593,7 @@ def main(ctx):
                           'correspondence C01 read: femio read_files = Model.read_msh',
                           found_input=False, signature={'kind': 'correspondence', 'side': tag},
                           what='femio reads something else than the model')
-    if model_ok and (bad_text is None or bad_read is None):
+    if model_ok and (bad_text is None or bad_read is None or bad_orient is None):
         ctx.violation('correspondence', {}, 'correspondence files compile', 'coqc failed',
                       'correspondence C01', found_input=False,
                       signature={'kind': 'correspondence', 'side': 'coqc'})
